@@ -869,54 +869,6 @@ Proof.
   - intros k Hk. apply (i_rest _ _ I k). exact Hk.
 Qed.
 
-Lemma dstep_childend cfg d d' e : dwf cfg -> dinv cfg d -> drr_act cfg d DChildEnd = Some (d', e) -> dinv cfg d' /\ dsameh cfg d d'.
-Proof.
-  intros Hwf I H. unfold drr_act in H. destruct (dchd d) as [| | |p] eqn:Ch; try discriminate.
-  pose proof (i_base _ _ I) as B. pose proof (i_ctl _ _ I) as C.
-  destruct (dctl_child cfg d C ltac:(congruence)) as (c & rest & p0 & K & Hp0 & Hc & A2 & A3 & C2 & C3 & C4 & C5 & C6).
-  assert (p0 = p) by (destruct Hp0 as [E|[(dl0 & E & _)|E]]; congruence). subst p0.
-  rewrite K in H. cbv zeta in H.
-  match type of H with match dcontinue cfg rest (dinner c rest ?X) with _ => _ end = _ => set (d1 := X) in H end.
-  assert (Hheld : forall k, dheld cfg d1 k = dheld cfg d k).
-  { intros k. unfold dheld, dtx_l, d1. cbn [dchd dhol dst]. rewrite Ch. reflexivity. }
-  assert (Hdone : forall k, ddone cfg d k = if Z.eqb c k then 1%Z else 0%Z).
-  { intros k. unfold ddone. rewrite Ch, Hc. reflexivity. }
-  pose proof (Qred_correct (ddef d c - inject_Z (psize p))) as HR.
-  pose proof (dquantum_pos cfg c Hwf C6) as HQ.
-  assert (HL : 0 <= inject_Z (dlmax d)) by (change 0 with (inject_Z 0); rewrite <- Zle_Qle; apply (b_lmax _ _ B)).
-  assert (HS : 0 < inject_Z (psize p)) by (change 0 with (inject_Z 0); rewrite <- Zlt_Qlt; lia).
-  destruct (b_def _ _ B c) as [D1 D2]. specialize (D2 C6).
-  assert (M : dmid cfg d1 (Some c)).
-  { constructor.
-    - apply (dbase_transfer2 cfg d d1 B Hheld); try reflexivity.
-      + intros k. unfold dlen. rewrite Hheld. unfold d1. cbn [dccnt]. unfold dupd, ddone. cbn [dchd].
-        pose proof (b_ccnt _ _ B k) as Hk. rewrite Hdone in Hk. unfold dlen in Hk.
-        destruct (Z.eqb_spec k c) as [->|Hne].
-        * rewrite Z.eqb_refl in Hk. lia.
-        * destruct (Z.eqb_spec c k); [congruence|]. lia.
-      + apply (b_nostrand _ _ B).
-      + intros k. unfold d1. cbn [ddef dlmax]. unfold dupd. destruct (Z.eqb_spec k c) as [->|]; [|apply (b_def _ _ B)].
-        destruct ((dccnt d c - 1 =? 0)%Z); (split; [lra|intros _; lra]).
-    - reflexivity.
-    - exact C2.
-    - exact C3.
-    - intros k Hk. assert (k <> c) by congruence. unfold dparked_or_zero, d1. cbn [dhol ddef]. rewrite dupd_neq by assumption.
-      apply (i_rest _ _ I). unfold dvisiting. rewrite K. congruence.
-    - intros k Hk. injection Hk as <-. split; [exact C6|]. unfold d1. cbn [dccnt ddef dhol]. rewrite !dupd_eq.
-      intros Hpre. split; [|exact C4].
-      destruct ((dccnt d c - 1 =? 0)%Z) eqn:R; [reflexivity|]. apply Z.eqb_neq in R.
-      destruct Hpre as [Hz|Hz]; [contradiction|]. lra. }
-  pose proof (dinner_spec cfg d1 c rest Hwf M C5) as HI.
-  destruct (dcontinue cfg rest (dinner c rest d1)) as [[d2 e2]|] eqn:Dc; [|discriminate]. injection H as <- <-.
-  apply (dcontinue_spec cfg rest _ d2 e2 Hwf (dsuffix_tail _ _ _ C5)) in Dc.
-  - destruct Dc as (I' & Dc). split; [exact I'|].
-    assert (S1 : dsameh cfg d d1) by (constructor; try reflexivity; exact Hheld).
-    eapply dsameh_trans; [exact S1|]. apply dsame_h.
-    destruct (dinner c rest d1) as [dr er|dr er|]; [| |contradiction];
-      destruct HI as (_ & S2 & _); destruct Dc as [S3 _]; (eapply dsame_trans; [exact S2|exact S3]).
-  - destruct (dinner c rest d1); [apply HI|apply HI|exact HI].
-Qed.
-
 Lemma durgent_false cfg d : durgent cfg d = false ->
   dctl_fresh d = false /\ dchild_urgent d = false /\ sq_urgent (dtok d) = false
   /\ (forall c, In c (dclasses cfg) -> sq_urgent (dst d c) = false).
@@ -958,6 +910,96 @@ Proof.
   - unfold dchild_urgent in U2. rewrite Ch in U2. discriminate.
 Qed.
 
+(* ---- the states run() resumes in (used again by the refinement proof in DRRVisit.v) ------------------------------------- *)
+Lemma dget_mid cfg d c rest t p q :
+  dwf cfg -> dinv cfg d -> dctrl d = DKGet c rest -> sq_take (dst d c) = Some ((t, p), q) ->
+  dmid cfg (dset_hol (dset_st d c q) c (Some p)) (Some c)
+  /\ dsame cfg d (dset_hol (dset_st d c q) c (Some p)) /\ 0 < ddef d c /\ dsuffix cfg (c :: rest) /\ dchd d = DCNone.
+Proof.
+  intros Hwf I K Tk.
+  pose proof (i_ctl _ _ I) as C. unfold dctl_ok in C. rewrite K in C.
+  destruct C as (C1 & C2 & (x & Gx) & C4 & C5 & C6 & C7).
+  pose proof (i_base _ _ I) as B.
+  pose proof (sq_take_inv pkt _ _ _ Tk) as (G & Ei & Ep & Gq).
+  pose proof (fifo_held_take pkt _ _ _ Tk) as Hh.
+  set (d2 := dset_hol (dset_st d c q) c (Some p)).
+  assert (Hheld : forall k, dheld cfg d2 k = dheld cfg d k).
+  { intros k. unfold dheld, dtx_l, dhol_l, dsth. cbn. rewrite C1. unfold dupd.
+    destruct (Z.eqb_spec k c) as [->|]; [|reflexivity]. rewrite C5, Hh. reflexivity. }
+  assert (S : dsame cfg d d2) by (constructor; try reflexivity; exact Hheld).
+  split; [|auto].
+  constructor; cbn; auto.
+  - apply (dbase_transfer cfg d _ B S); [intros k; unfold ddone; cbn; reflexivity|apply (b_nostrand _ _ B)|apply (b_def _ _ B)].
+  - intros k. unfold dupd. destruct (Z.eqb_spec k c) as [->|Hne]; [exact Gq|apply C4; exact Hne].
+  - intros k Hk. assert (k <> c) by congruence. unfold dparked_or_zero. cbn. rewrite dupd_neq by assumption.
+    apply (i_rest _ _ I). unfold dvisiting. rewrite K. congruence.
+  - intros k Hk. injection Hk as <-. split; [apply (dsuffix_head _ _ _ C6)|].
+    intros [Hc|Hd]; [|exfalso; lra]. exfalso.
+    assert (Hpos : (0 < dlen cfg d c)%Z).
+    { unfold dlen. rewrite <- (Hheld c). unfold dheld, dhol_l. cbn. rewrite dupd_eq. rewrite app_length. cbn. lia. }
+    rewrite (b_ccnt _ _ B c) in Hc. unfold ddone in Hc. rewrite C1 in Hc. cbv beta iota in Hc. lia.
+Qed.
+
+Lemma dchildend_mid cfg d c rest p :
+  dwf cfg -> dinv cfg d -> dchd d = DCDone p -> dctrl d = DKChild c rest ->
+  dmid cfg (ddebit d c rest p) (Some c) /\ dsameh cfg d (ddebit d c rest p) /\ dsuffix cfg (c :: rest)
+  /\ dcls cfg p = c /\ (ddebit_reset d c = true <-> dheld cfg d c = []).
+Proof.
+  intros Hwf I Ch K.
+  pose proof (i_base _ _ I) as B. pose proof (i_ctl _ _ I) as C.
+  destruct (dctl_child cfg d C ltac:(congruence)) as (c' & rest' & p0 & K' & Hp0 & Hc & A2 & A3 & C2 & C3 & C4 & C5 & C6).
+  rewrite K in K'. injection K' as <- <-.
+  assert (p0 = p) by (destruct Hp0 as [E|[(dl0 & E & _)|E]]; congruence). subst p0.
+  set (d1 := ddebit d c rest p).
+  assert (Hheld : forall k, dheld cfg d1 k = dheld cfg d k).
+  { intros k. unfold dheld, dtx_l, d1, ddebit. cbn [dchd dhol dst]. rewrite Ch. reflexivity. }
+  assert (Hdone : forall k, ddone cfg d k = if Z.eqb c k then 1%Z else 0%Z).
+  { intros k. unfold ddone. rewrite Ch, Hc. reflexivity. }
+  pose proof (Qred_correct (ddef d c - inject_Z (psize p))) as HR.
+  pose proof (dquantum_pos cfg c Hwf C6) as HQ.
+  assert (HL : 0 <= inject_Z (dlmax d)) by (change 0 with (inject_Z 0); rewrite <- Zle_Qle; apply (b_lmax _ _ B)).
+  assert (HS : 0 < inject_Z (psize p)) by (change 0 with (inject_Z 0); rewrite <- Zlt_Qlt; lia).
+  destruct (b_def _ _ B c) as [D1 D2]. specialize (D2 C6).
+  split; [|split; [constructor; try reflexivity; exact Hheld|split; [exact C5|split; [exact Hc|]]]].
+  - constructor.
+    + apply (dbase_transfer2 cfg d d1 B Hheld); try reflexivity.
+      * intros k. unfold dlen. rewrite Hheld. unfold d1, ddebit. cbn [dccnt]. unfold dupd, ddone. cbn [dchd].
+        pose proof (b_ccnt _ _ B k) as Hk. rewrite Hdone in Hk. unfold dlen in Hk.
+        destruct (Z.eqb_spec k c) as [->|Hne].
+        -- rewrite Z.eqb_refl in Hk. lia.
+        -- destruct (Z.eqb_spec c k); [congruence|]. lia.
+      * apply (b_nostrand _ _ B).
+      * intros k. unfold d1, ddebit. cbn [ddef dlmax]. unfold dupd. destruct (Z.eqb_spec k c) as [->|]; [|apply (b_def _ _ B)].
+        destruct (ddebit_reset d c); (split; [lra|intros _; lra]).
+    + reflexivity.
+    + exact C2.
+    + exact C3.
+    + intros k Hk. assert (k <> c) by congruence. unfold dparked_or_zero, d1, ddebit. cbn [dhol ddef]. rewrite dupd_neq by assumption.
+      apply (i_rest _ _ I). unfold dvisiting. rewrite K. congruence.
+    + intros k Hk. injection Hk as <-. split; [exact C6|]. unfold d1, ddebit. cbn [dccnt ddef dhol]. rewrite !dupd_eq.
+      intros Hpre. split; [|exact C4].
+      destruct (ddebit_reset d c) eqn:R; [reflexivity|]. unfold ddebit_reset in R. apply Z.eqb_neq in R.
+      destruct Hpre as [Hz|Hz]; [contradiction|]. lra.
+  - pose proof (b_ccnt _ _ B c) as Hk. rewrite Hdone, Z.eqb_refl in Hk. unfold dlen in Hk. unfold ddebit_reset. rewrite Z.eqb_eq. split.
+    + intros E. destruct (dheld cfg d c); [reflexivity|cbn [length] in Hk; lia].
+    + intros E. rewrite E in Hk. cbn in Hk. lia.
+Qed.
+
+Lemma dstep_childend cfg d d' e : dwf cfg -> dinv cfg d -> drr_act cfg d DChildEnd = Some (d', e) -> dinv cfg d' /\ dsameh cfg d d'.
+Proof.
+  intros Hwf I H. unfold drr_act in H. destruct (dchd d) as [| | |p] eqn:Ch; try discriminate.
+  destruct (dctrl d) as [| | |c rest] eqn:K; try discriminate.
+  destruct (dchildend_mid cfg d c rest p Hwf I Ch K) as (M & S1 & C5 & _).
+  pose proof (dinner_spec cfg (ddebit d c rest p) c rest Hwf M C5) as HI.
+  destruct (dcontinue cfg rest (dinner c rest (ddebit d c rest p))) as [[d2 e2]|] eqn:Dc; [|discriminate]. injection H as <- <-.
+  apply (dcontinue_spec cfg rest _ d2 e2 Hwf (dsuffix_tail _ _ _ C5)) in Dc.
+  - destruct Dc as (I' & Dc). split; [exact I'|].
+    eapply dsameh_trans; [exact S1|]. apply dsame_h.
+    destruct (dinner c rest (ddebit d c rest p)) as [dr er|dr er|]; [| |contradiction];
+      destruct HI as (_ & S2 & _); destruct Dc as [S3 _]; (eapply dsame_trans; [exact S2|exact S3]).
+  - destruct (dinner c rest (ddebit d c rest p)); [apply HI|apply HI|exact HI].
+Qed.
+
 (* ---- all together ------------------------------------------------------------------------------------------------------- *)
 Theorem dinv_step cfg d a d' e : dwf cfg -> dinv cfg d -> drr_act cfg d a = Some (d', e) -> dinv cfg d'.
 Proof.
@@ -990,3 +1032,4 @@ Proof.
   - cbn. discriminate.
   - intros c _. reflexivity.
 Qed.
+
